@@ -169,6 +169,15 @@ Proof.
   intros rs d l h x H. apply decide_cand_wf in H. split; [exact H|apply lru_variations_wf; exact H].
 Qed.
 
+(* the same, read off a model state *)
+Definition cand_ok (s : traph) (l : bytes) : Prop :=
+  forall h x, decide s l h = LCand x -> wf_lru x /\ vars_wf x.
+
+Lemma cand_ok_always : forall s l, cand_ok s l.
+Proof.
+  intros s l h x H. apply decide_cand_wf in H. split; [exact H|apply lru_variations_wf; exact H].
+Qed.
+
 (* ====================================================================== *)
 (* 1. the prefix walk                                                     *)
 (* ====================================================================== *)
@@ -415,9 +424,9 @@ Proof.
   intros x s a Hx HR. unfold create_from, acreate.
   pose proof (add_prefixes_Rcore (lru_variations x) true s a (lru_variations_wf x Hx) HR) as H.
   cbv zeta in H.
-  change (a_pref (upd_known (fun k => fold_left (fun k v => know v k) (lru_variations x) k) a))
+  change (a_pref (upd_known (fun k0 => fold_left (fun k v => know v k) (lru_variations x) k0) a))
     with (a_pref a).
-  change (a_last (upd_known (fun k => fold_left (fun k v => know v k) (lru_variations x) k) a))
+  change (a_last (upd_known (fun k0 => fold_left (fun k v => know v k) (lru_variations x) k0) a))
     with (a_last a).
   set (valid := dedup_bytes (filter (fun p => negb (amem p (a_pref a))) (lru_variations x)) []) in *.
   destruct (add_prefixes (lru_variations x) true s) as [s1 [| |w' valid']].
